@@ -134,3 +134,24 @@ Theorem C01_map2_converge (H : list (oprec (mop (mop oop)))) (s1 s2 : cmap (cmap
   mdeferred s1 = mdeferred s2.
 Proof. exact (map2_converge H s1 s2 K). Qed.
 Print Assumptions C01_map2_converge.
+
+(** Map<K, Orswot> whose keys are never removed (members are added and removed under keys): the COMPLETE state - map clock,
+    keys, entry clocks, and under every key the whole nested set with its witness clocks and parked removes - is a function of
+    the knowledge, whatever the (per-actor, hence also causal) delivery order, duplicates and state merges (proofs/MapOrswotNK.v) *)
+From Crdt Require Import model.Orswot model.Map spec.System spec.OrswotSpec spec.OrswotSystem spec.MapSpec spec.MapSystem spec.MapOrswotSpec proofs.MapOrswotNK proofs.MapOrswotNKCor.
+Theorem C01_mapor_nk_refine (H : list (oprec (mop oop))) :
+  mohist_ok_nk H -> forall (s : cmap orswot) (K : gset nat), moreach_nk H s K -> s = mapor_spec_nk H K.
+Proof. exact (mapor_refine_nk H). Qed.
+Print Assumptions C01_mapor_nk_refine.
+
+Theorem C01_mapor_nk_converge (H : list (oprec (mop oop))) :
+  mohist_ok_nk H -> forall (s1 s2 : cmap orswot) (K : gset nat), moreach_nk H s1 K -> moreach_nk H s2 K -> s1 = s2.
+Proof. exact (mapor_converge_nk H). Qed.
+Print Assumptions C01_mapor_nk_converge.
+
+(** in particular under causal delivery without merges (the setting of this property) *)
+Theorem C01_mapor_nk_causal (mg : Prop) (H : list (oprec (mop oop))) (s : cmap orswot) (K : gset nat) :
+  mohist_ok_nk H -> (forall K i, adm_causal H K i -> adm_per_actor H K i) ->
+  reach mnew (mapply orswot_valops) (mmerge orswot_valops) adm_causal mg H s K -> s = mapor_spec_nk H K.
+Proof. exact (mapor_refine_nk_any adm_causal mg H s K). Qed.
+Print Assumptions C01_mapor_nk_causal.
